@@ -1,6 +1,7 @@
 import ITree.Lemmas.Storage
 import ITree.Lemmas.Refine
 import ITree.Lemmas.KHistory
+import ITree.Lemmas.KGrowth
 /-!
 # C11 — arena slots are never double-used or lost; storage bounded by the peak population
 -/
@@ -116,6 +117,33 @@ theorem C11_key_partition {c : Nat} {st : St V} {S : List (Ent V)} {last : Optio
     (0 :: (st.tree.slots ++ st.pool.unused)).Perm (List.range st.pool.bufLen) ∧
       1 + st.tree.size + st.pool.unused.length = st.pool.bufLen :=
   ⟨h.inv.1.slots.1, h.inv.1.slots.count⟩
+
+/-- expiring-tree histories with the peak number of physically stored entries after any operation -/
+inductive KReachP (c : Nat) : St V → List (Ent V) → Option Int → Nat → Prop where
+  | new : KReachP c (St.new c) [] none 0
+  | step {st st' : St V} {S : List (Ent V)} {last : Option Int} {pk : Nat} (op : KOp V) {r : Option V}
+      {vals : List V} {tr : List (Ev V)} : KReachP c st S last pk → KContract S last op →
+      st.kstep op = some (st', r, vals, tr) →
+      KReachP c st' (kspecStep S op).1 (op.nextLast last) (max pk st'.tree.size)
+
+theorem KReachP.reach {c : Nat} {st : St V} {S : List (Ent V)} {last : Option Int} {pk : Nat}
+    (h : KReachP c st S last pk) : KReach c st S last := by
+  induction h with
+  | new => exact KReach.new
+  | step op _ hc hs ih => exact KReach.step op ih hc hs
+
+/-- **storage bound for the expiring tree**: along any in-contract history — lazy removals during
+queries, re-insertions, export purges, clears — the arena never holds more than
+`max(max(c,8), 3·(peak+1))` slots, `peak` = the largest number of entries physically stored after any
+operation -/
+theorem C11_key_storage_bound {c : Nat} {st : St V} {S : List (Ent V)} {last : Option Int} {pk : Nat}
+    (h : KReachP c st S last pk) : st.pool.bufLen ≤ max (max c 8) (3 * (pk + 1)) := by
+  have key : Growth (max c 8) pk st := by
+    induction h with
+    | new => exact ⟨by simp [St.new], by simp [St.new, Pool.new], by simp only [St.new, Pool.new]; omega, by simp only [St.new, Pool.new]; omega⟩
+    | @step st st' S last pk op r vals tr hr hc hs ih =>
+      exact St.kstep_growth st op (max c 8) pk (by omega) hr.reach.inv.1 ih hs
+  exact key.buf_le
 
 /-! non-vacuity -/
 example : ∃ st : St Nat, ReachP 0 st 1 ∧ st.pool.bufLen = 8 :=
